@@ -22,4 +22,5 @@ Extraction "model.ml"
   map_get mapping_pure read_full
   init_state api_step pure run
   lang_consts seed_prefix seed_iter seed_keylen
-  bip39_encode bip39_decode spec_accepts bip39_seed mnemonic_salt ws_tokens itoa.
+  bip39_encode bip39_decode spec_accepts bip39_seed mnemonic_salt ws_tokens itoa
+  canon_tables canon classify tbl_get split_at.
